@@ -1047,6 +1047,9 @@ package proxy
 //@   checkgo
 //@   requires f.adminClient != nil && f.targetStreamServer != nil
 //@   ensures @outgoing_context_cancelled: f.cancelled
+// seed C06-11: the upstream stream lives in the initiator's stream context (so the initiator going away ends it even
+// while the ack relay is blocked in Send), not in some longer-lived context
+//@   callpre NewOutgoingContext: @bound_to_the_initiator: $0 == f.targetStreamServer.Context()
 
 // The listener goroutine: closes its channel on exit, so a relay loop blocked on it wakes up.
 //@ extern (recvable).Recv(r)
